@@ -117,3 +117,16 @@ def render_error(e):
     for st in e.stacktrace or []:
         lines.append(str(st))
     return lines
+
+
+def show(text):
+    # prints a line for a host.  The program may have closed the standard
+    # output (then nothing can be printed any more), and a string may hold
+    # what the encoding of the output cannot express (shown escaped)
+    try:
+        print(text)
+    except UnicodeEncodeError:
+        encoding = getattr(sys.stdout, "encoding", None) or "utf-8"
+        print(text.encode(encoding, "backslashreplace").decode(encoding))
+    except ValueError:
+        pass
